@@ -11,7 +11,7 @@ use crate::runner::{Ctx, Part, Tier, Verdict};
 const NAMES: [&str; 4] = ["a", "b", "c", "d"];
 
 /// template sources: (text, compiles)
-const SOURCES: [(&str, bool); 20] = [
+const SOURCES: [(&str, bool); 22] = [
     ("A1{% include 'b' %}", true),
     ("B{{ x|f1 }}", true),
     ("{% extends 'c' %}{% block t %}D{{ g1 }}{% endblock %}", true),
@@ -33,6 +33,9 @@ const SOURCES: [(&str, bool); 20] = [
     ("{% macro m() %}macro-text {{ x.nope.nope }}{% endmacro %}{{ m() }}", true),
     ("{% macro w() %}<{{ caller() }}>{% endmacro %}{% call w() %}call-text {% include 'zz' %}{% endcall %}", true),
     ("{% macro w() %}<{{ caller() }}>{% endmacro %}{% call w() %}fine{% endcall %}{{ w|string|length }}", true),
+    // values that go through a foreign serializer (the engine keeps per-thread state for that)
+    ("{{ [1, 2, 3]|tojson }} {{ {'a': [1, x], 'b': g1}|tojson }}", true),
+    ("{% set c %}{{ [x, [x]]|tojson }}{% endset %}{{ c }}{{ {'k': fn1}|tojson }}", true),
 ];
 
 #[derive(Clone, Debug, Serialize, Deserialize, PartialEq)]
@@ -56,6 +59,21 @@ pub enum Op {
     Clone,
     Render(u8),
     CompileExpression(u8),
+    /// a render that fails because the host's context panics while it is serialised (the
+    /// panic is contained, as a worker thread or request handler would)
+    #[serde(alias = "RenderPanicking")]
+    RenderPanickingContext(u8),
+}
+
+struct PanickingContext;
+
+impl Serialize for PanickingContext {
+    fn serialize<S: serde::Serializer>(&self, serializer: S) -> Result<S::Ok, S::Error> {
+        use serde::ser::SerializeMap;
+        let mut map = serializer.serialize_map(None)?;
+        map.serialize_entry("x", "X")?;
+        panic!("the host's context panics while being serialised");
+    }
 }
 
 #[derive(Clone, Debug, Default)]
@@ -172,6 +190,7 @@ fn op() -> BoxedStrategy<Op> {
         1 => Just(Op::Clone),
         3 => name().prop_map(Op::Render),
         1 => (0u8..3).prop_map(Op::CompileExpression),
+        1 => name().prop_map(Op::RenderPanickingContext),
     ]
     .boxed()
 }
@@ -196,9 +215,17 @@ fn compare_with_fresh(env: &Environment<'static>, m: &mut Model, store: &Store, 
             format!("{step}: the loader was asked for {bad:?} although it is stored in the environment (stored: {cached_before:?})"),
         ));
     }
-    let fresh_log: Log = Arc::new(Mutex::new(vec![]));
-    let f = fresh(m, store, &fresh_log);
-    let want: Vec<String> = NAMES.iter().map(|n| outcome(&f, n)).collect();
+    // the reference: a freshly built environment on a freshly started thread (nothing an earlier
+    // render may have left behind in this thread is shared with it)
+    let want: Vec<String> = std::thread::scope(|sc| {
+        sc.spawn(|| {
+            let fresh_log: Log = Arc::new(Mutex::new(vec![]));
+            let f = fresh(m, store, &fresh_log);
+            NAMES.iter().map(|n| outcome(&f, n)).collect()
+        })
+        .join()
+        .expect("the reference render does not panic")
+    });
     if real != want {
         return Err((
             "differs_from_fresh_environment".into(),
@@ -339,6 +366,12 @@ impl Part for Histories {
                     // a render looks up the template itself and what it references; the model's
                     // lookups happen in the comparison probe below, which is equivalent as the
                     // store does not change in between
+                }
+                Op::RenderPanickingContext(n) => {
+                    v.labels.push("render_with_panicking_context");
+                    if let Ok(t) = env.get_template(NAMES[*n as usize]) {
+                        let _ = crate::runner::guarded(|| t.render(minijinja::value::Serde(PanickingContext)));
+                    }
                 }
                 Op::CompileExpression(k) => {
                     let src = ["x|f1", "fn1(3) if x is t1", "g1 ~ "][*k as usize % 3];
